@@ -83,6 +83,18 @@ def rule_r7_texts(ctx: Ctx) -> None:
     jobs.append(dict(files=dict(lone), entry="read_files", targets=[W + "/Lone.1.0.dsdl"], roots=[W], lookup=[L], kwargs=kw))
     scenarios.append(("read_files over Lone after a successful call over A", jobs))
 
+    # a reference that names nothing, next to lookup files whose names are *nearly* the name referred to (equal after case
+    # folding or compatibility normalisation: sharp s, long s, a fullwidth letter, a combining accent): the reference stays
+    # undefined whatever those files hold
+    near = ["Ma\u00df.1.0.dsdl", "Ma\u017fs.1.0.dsdl", "\uff2dass.1.0.dsdl", "Mass\u0301.1.0.dsdl", "MASS\u200b.1.0.dsdl"]
+    texts = ["uint8 fine\n@sealed\n", "garbage @@ ]]\n", "uint8 a\n@assert false\n@print 1\n@sealed\n", "Nope.1.0 n\n@sealed\n"]
+    for n in near:  # (one at a time: two of them together would be a collision among themselves)
+        jobs = []
+        for t in texts:
+            fs = {W + "/R.1.0.dsdl": "uint8 first\nother.Mass.1.0 m\n@sealed\n", L + "/" + n: t}
+            jobs.append(dict(files=fs, entry="read_files", targets=[W + "/R.1.0.dsdl"], roots=[W], lookup=[L], kwargs=kw, handler=True))
+        scenarios.append(("read_files over R whose reference names nothing, next to the nearly equal file name %a" % n, jobs))
+
     flat = [j for _, js in scenarios for j in js]
     outs = fe.read_many(flat)
     ctx.count(len(flat))
@@ -97,10 +109,14 @@ def rule_r7_texts(ctx: Ctx) -> None:
             pass
         bad = []
         names = [v[0] for v in variants] + (["no history"] if "after a" in label else [])
+        if "nearly equal" in label:
+            names = ["valid texts", "garbage", "failing assertion and @print", "undefined reference"]
+            got = [g + (tuple(o.get("prints") or []),) for g, o in zip(got, outs[pos - len(js) : pos])]
+            ref = got[0]
         for nm, g in zip(names, got):
             if g != ref:
                 bad.append({"outside the closure": nm, "outcome": repr(g)[:300], "reference outcome": repr(ref)[:300]})
-        if ref[0] == "raised" and "fails" not in label:
+        if ref[0] == "raised" and "fails" not in label and "nearly equal" not in label:
             bad.append({"reference outcome": repr(ref)[:300], "expected": "a result"})
         ctx.check(not bad, label, "%d variants of everything outside the closure" % (len(js)), "the outcome depends on definitions outside the dependency closure of the targets: %s" % ("; ".join("%s -> %s" % (b.get("outside the closure"), b.get("outcome", "")[:120]) for b in bad[:2])), where, bad[:4])
 
